@@ -18,7 +18,7 @@ Qed.
 
 Lemma log_weights_fn {X} (x : list X) ll lp lq b0 b :
   log_weights x ll lp lq b0 b
-  = map (fun t => t + (logsumexp (unnormalized_log_weights x ll lp lq b0 b) - ln (vlen x)))
+  = map (fun t => t - (logsumexp (unnormalized_log_weights x ll lp lq b0 b) - ln (vlen x)))
         (unnormalized_log_weights x ll lp lq b0 b).
 Proof. reflexivity. Qed.
 
@@ -42,6 +42,8 @@ Proof.
   assert (Hu : unnormalized_log_weights x ll lp lq b0 b <> []).
   { rewrite unnormalized_log_weights_spec by auto.
     pose proof (lw_ne x ll lp lq Hne Hx Hp Hq) as H. destruct (compute_weights_log_w x ll lp lq); simpl; congruence. }
+  change (fun t : R => t - (logsumexp (unnormalized_log_weights x ll lp lq b0 b) - ln (vlen x)))
+    with (fun t : R => t + - (logsumexp (unnormalized_log_weights x ll lp lq b0 b) - ln (vlen x))).
   rewrite ess_shift_invariant by exact Hu.
   rewrite effective_sample_size_spec by exact Hu.
   now rewrite unnormalized_log_weights_spec.
